@@ -98,6 +98,50 @@ func (t *vTree) publishMixed() {
 	t.root.evch <- ev
 }
 
+// publishAny publishes a create of a new object, or an update (strictly newer
+// version, same key) or a delete of the most recently created live object.
+func (t *vTree) publishAny() {
+	var last Event
+	for _, e := range t.pubd {
+		if e.Type() != EventTypeDelete {
+			alive := true
+			for _, d := range t.pubd {
+				if d.Type() == EventTypeDelete && vSameKey(vEntOf(d.Resource()), vEntOf(e.Resource())) {
+					alive = false
+				}
+			}
+			if alive {
+				last = e
+			}
+		}
+	}
+	kind := 0
+	if last != nil {
+		kind = zzverif.NondetInt("ev.kind", 0, 2)
+	}
+	switch kind {
+	case 0:
+		t.publish()
+	case 1:
+		old := last.Resource()
+		p := vSymPod("evu")
+		p.Namespace, p.Name = old.GetNamespace(), old.GetName()
+		zzverif.Assume(zzverif.And(zzverif.AtoiOK(p.ResourceVersion), zzverif.AtoiVal(p.ResourceVersion) > zzverif.AtoiVal(old.GetResourceVersion())))
+		ev := NewEvent(EventTypeUpdate, p)
+		out, err := t.pcache.update(ev)
+		zzverif.Assert(err == nil && len(out) == 1, "harness/parent-update")
+		t.pubd = append(t.pubd, out[0])
+		t.root.evch <- out[0]
+		zzverif.Reach("C05/update-published")
+	default:
+		ev := NewEvent(EventTypeDelete, last.Resource())
+		out, err := t.pcache.update(ev)
+		zzverif.Assert(err == nil && len(out) == 1, "harness/parent-update")
+		t.pubd = append(t.pubd, ev)
+		t.root.evch <- ev
+	}
+}
+
 type vMonHandler struct{ ch chan Event }
 
 func (h vMonHandler) OnInitialize(objs []metav1.Object) {}
@@ -204,7 +248,7 @@ func VerifC05_Tree() {
 			v.sub.Close()
 			zzverif.Reach("C05/sibling-closed")
 		case 0:
-			t.publish()
+			t.publishAny()
 		case 1:
 			exact := false
 			if zzverif.NondetInt("quiesce", 0, 1) == 1 {
